@@ -392,6 +392,129 @@ def corpus_cases(tier, rng):
     return out
 
 
+# ------------------------------------------------------------------ degenerate values and sizes
+
+def degenerate_cases(tier, rng):
+    """falsy / extreme node ids and label values, isolated nodes, two-digit and three-digit ids, sizes >= 10 and >= 100"""
+    out = []
+
+    def add(name, g):
+        out.append(dict(kind="aut", name="degenerate/" + name, g=g))
+    # node id 0 (falsy) alone, with a neighbour, as the minimum of an orbit / of the anchor component
+    z = _mk(3, [(1, 2, 1), (2, 3, 1)])
+    add("id0-path", GG.relabel(z, {1: 0, 2: 5, 3: 9}))
+    add("id0-centre", GG.relabel(z, {1: 7, 2: 0, 3: 9}))
+    add("id0-isolated", GG.relabel(disjoint(_mk(1, []), path(2)), {1: 0, 2: 4, 3: 3}))
+    add("id0-two-equal-components", GG.relabel(disjoint(path(2), path(2)), {1: 3, 2: 0, 3: 1, 4: 2}))   # anchor tie: min id 0
+    # isolated nodes only, several equal largest components (anchor ties), all labels equal / all different
+    add("3-isolated", _mk(3, []))
+    add("isolated-different", {"nodes": [_node(1, "C"), _node(2, "O"), _node(3, "N")], "edges": []})
+    add("tie-3-components", GG.relabel(disjoint(path(2), path(2), path(2)), {1: 20, 2: 21, 3: 10, 4: 11, 5: 30, 6: 31}))
+    # falsy / negative / large attribute values
+    g = path(3)
+    g["nodes"][0][1].update(charge=0, hcount=0, aromatic=False)
+    g["nodes"][2][1].update(charge=-1)
+    add("negative-charge", g)
+    g = path(4)
+    g["nodes"][0][1].update(charge=12)
+    g["nodes"][3][1].update(charge=12, hcount=10)
+    add("two-digit-charge-hcount", g)
+    g = GG.cycle(4)
+    for k, (n, a) in enumerate(g["nodes"]):
+        a["element"] = "" if k % 2 else "C"
+    add("empty-string-element", g)
+    g = GG.cycle(6, order=1.5)
+    g["edges"][0][2]["order"] = 0.5
+    add("half-orders", g)
+    g = path(3)
+    g["edges"][0][2]["order"] = 0
+    add("order-zero", g)                                   # a falsy edge label
+    # ids with two and three digits (string sorting of ids differs from numeric), sizes >= 10
+    add("ids-9-10-100", GG.relabel(path(3), {1: 100, 2: 9, 3: 10}))
+    add("cycle12-ids-x11", GG.relabel(GG.cycle(12), {i: 11 * i for i in range(1, 13)}))
+    add("path16", path(16))
+    add("ring_alt12", ring_alt(12))
+    add("12-isolated", _mk(12, []))
+    add("star11", star(11) if tier != "quick" else star(7))
+    add("10-components", disjoint(*[path(2) for _ in range(10)]))
+    add("two-decalins", disjoint(mirror(GG.cycle(5)), mirror(GG.cycle(5))))          # 20 nodes, 2 equal components
+    # >= 100 atoms: beyond the enumerator budget of the model, oracle only
+    add("path120", path(120))
+    add("cycle100-one-O", with_label(GG.cycle(100), 0, element="O"))
+    return out
+
+
+# ------------------------------------------------------------------ history cases
+
+# product-asymmetric rule, its symmetric sibling (same left side, same bond changes, no node-level change), a renumbering
+SIBLINGS = [
+    ("[CH2:1][CH2:2]>>[CH2+:1].[CH2-:2]", "[CH2:1][CH2:2]>>[CH2:1].[CH2:2]", "[CH2:2][CH2:1]>>[CH2+:2].[CH2-:1]", "CCCO"),
+    ("[CH:1]=[CH:2]>>[CH+:1][CH-:2]", "[CH:1]=[CH:2]>>[CH:1][CH:2]", "[CH:2]=[CH:1]>>[CH-:2][CH+:1]", "CC=CO"),
+    ("[OH:1][OH:2]>>[OH+:1].[OH-:2]", "[OH:1][OH:2]>>[OH:1].[OH:2]", "[OH:2][OH:1]>>[OH-:2].[OH+:1]", "CCOO"),
+    ("[SH:1][SH:2]>>[SH+:1].[SH-:2]", "[SH:1][SH:2]>>[SH:1].[SH:2]", "[SH:2][SH:1]>>[SH+:2].[SH-:1]", "CCSSC"),
+]
+
+
+def _pstep(tpl, sub, core=True, opts=None, invert=False):
+    return dict(kind="prune", name="step", tpl=tpl, core=core, sub=sub, invert=invert, opts=dict(opts or {}))
+
+
+def history_cases(tier, rng):
+    out = []
+    # (c) one process, rules that share everything but the product-side atom types; both orders; non-default options first
+    for k, (asym, sym, ren, sub) in enumerate(SIBLINGS):
+        for core in ((True, False) if tier != "quick" else (bool(k % 2),)):
+            out.append(dict(kind="hist", script="prune", name="hist/prune/sym-then-asym#%d" % k,
+                            steps=[_pstep(sym, sub, core), _pstep(asym, sub, core), _pstep(sym, sub, core)]))
+            out.append(dict(kind="hist", script="prune", name="hist/prune/asym-then-sym#%d" % k,
+                            steps=[_pstep(asym, sub, core), _pstep(sym, sub, core), _pstep(ren, sub, core), _pstep(asym, sub, core)]))
+            out.append(dict(kind="hist", script="prune", name="hist/prune/options-first#%d" % k,
+                            steps=[_pstep(sym, sub, core, {"explicit_h": False, "implicit_temp": True}),
+                                   _pstep(asym, sub, core, {"automorphism": True}), _pstep(asym, sub, not core), _pstep(asym, sub, core)]))
+    out.append(dict(kind="hist", script="prune", name="hist/prune/other-substrates",
+                    steps=[_pstep(SIBLINGS[0][1], "CCCCO"), _pstep(SIBLINGS[0][0], "CCCN"), _pstep(SIBLINGS[0][0], "CCCO"),
+                           _pstep(HAND[0][0], HAND[0][2][0], invert=True), _pstep(HAND[1][0], HAND[1][2][0], invert=True)]))
+    # (a)(b)(d)(e) one graph object analysed, edited in place, analysed again; reduced / permuted / extended attribute lists first
+    seeds = [("path4", path(4)), ("cycle6", GG.cycle(6)), ("star3", star(3)), ("2tri", disjoint(GG.cycle(3), GG.cycle(3))),
+             ("K2_3", GG.complete_bipartite(2, 3)), ("edge+edge+node", disjoint(path(2), path(2), _mk(1, []))),
+             ("single", _mk(1, [])), ("path12", path(12))]
+    nks = [None, ["element"], ["charge", "element"], ["element", "charge", "hcount"]]
+    for name, g in seeds:
+        ids = [n for n, _ in g["nodes"]]
+        a, b = ids[0], ids[-1]
+        new = max(ids) + 10
+        edits = [
+            [],                                                                    # analysed as it is
+            [["relabel", a, {"element": "O"}]],                                    # counts unchanged: one label
+            [["relabel", a, {"element": "C"}], ["relabel", b, {"charge": 1}]],     # back, and a charge elsewhere
+            [["relabel", b, {"charge": 0, "hcount": 2}]],                          # only WL(4 attrs) sees it
+            [["add_node", new, {"element": "C", "charge": 0, "hcount": 0, "aromatic": False, "atom_map": new}],
+             ["add_edge", a, new, {"order": 1}]],                                  # counts change
+            [["order", a, new, 2]],                                                # one bond order
+            [["del_node", new]],                                                   # back to the start value
+        ]
+        if g["edges"]:
+            u, v = g["edges"][0][0], g["edges"][0][1]
+            edits.insert(3, [["order", u, v, 2]])
+            edits.append([["order", u, v, 1]])
+        steps = [dict(edit=e, nk=nks[(i + len(name)) % len(nks)] if i % 3 == 2 else None) for i, e in enumerate(edits)]
+        out.append(dict(kind="hist", script="aut", name="hist/aut/" + name, g=g, steps=steps))
+        # the same value with non-default attribute selections first, then the defaults (no edit at all)
+        out.append(dict(kind="hist", script="aut", name="hist/aut-options/" + name, g=g,
+                        steps=[dict(nk=["element"]), dict(nk=None), dict(nk=["element", "charge", "hcount"]), dict(nk=["charge", "element"]), dict(nk=None)]))
+    if tier != "quick":
+        for k in range(60):
+            g = random_sym_graph(rng)
+            ids = [n for n, _ in g["nodes"]]
+            steps = [dict(edit=[], nk=None)]
+            for j in range(4):
+                n = rng.choice(ids)
+                steps.append(dict(edit=[["relabel", n, {"element": rng.choice(["C", "O", "N"]), "charge": rng.choice([0, 0, 1])}]],
+                                  nk=rng.choice(nks)))
+            out.append(dict(kind="hist", script="aut", name="hist/aut/rand#%d" % k, g=g, steps=steps))
+    return out
+
+
 # ------------------------------------------------------------------ entry
 
 def gen_cases(tier, rng):
@@ -431,7 +554,9 @@ def gen_cases(tier, rng):
     # match lists
     for k in range(260 if tier == "quick" else 3000):
         cases.append(dedup_case(rng, k))
+    cases += degenerate_cases(tier, rng)
     cases += repeated_species_cases(tier, rng)
+    cases += history_cases(tier, rng)
     # rule applications
     cases += hand_cases(tier)
     cases += corpus_cases(tier, rng)
